@@ -171,8 +171,16 @@ func partID(i int) partstore.PartId {
 // (O_TRUNC + sequential writes at the same offsets) can expose to a reader that
 // holds the inode open.
 func positionwiseMix(obs []byte, cands [][]byte) bool {
+	return positionwiseMixZ(obs, cands, false)
+}
+
+// positionwiseMixZ additionally accepts zero bytes when holes is set: two
+// unserialised writers of the same file (each O_TRUNC + writes at its private
+// offset) leave zero-filled holes where the later truncation cut the earlier
+// writer's prefix away.
+func positionwiseMixZ(obs []byte, cands [][]byte, holes bool) bool {
 	for p, c := range obs {
-		ok := false
+		ok := holes && c == 0
 		for _, v := range cands {
 			if p < len(v) && v[p] == c {
 				ok = true
@@ -600,7 +608,7 @@ func runGCConc(env *ev.Env, c Case) (o ev.Outcome) {
 						if rerr != nil {
 							prob = fmt.Sprintf("thread %d op %d: reading a hit of %s failed: %v", t, i, keyName(op.K), rerr)
 						} else if key, w, sq, ok := parseValue(b); !ok || key != keyName(op.K) || w < 1 || w > len(c.Threads) || sq >= len(c.Threads[w-1]) || c.Threads[w-1][sq].Op != "set" || !invoked[w-1][sq].Load() {
-							if c.Persistor == "fs" && positionwiseMix(b, planned[op.K]) && env.Known(mInPlace) {
+							if c.Persistor == "fs" && positionwiseMixZ(b, planned[op.K], true) && env.Known(mInPlace) {
 								torn = true
 							} else {
 								what := "a torn or partial value"
@@ -1156,7 +1164,7 @@ func runPSConc(env *ev.Env, c Case) (o ev.Outcome) {
 					case rerr != nil:
 						prob = fmt.Sprintf("thread %d op %d: reading part%d failed after %d bytes: %v", t, i, id, len(b), rerr)
 					case op.Op == "get" && !bytes.Equal(b, w), op.Op == "abandon" && !(bytes.HasPrefix(w, b) && (len(b) == min(len(w), max(1, op.N)))):
-						if c.Persistor == "fs" && bytes.HasPrefix(w, b) && env.Known(mInPlace) {
+						if c.Persistor == "fs" && len(b) <= len(w) && positionwiseMixZ(b, [][]byte{w}, true) && env.Known(mInPlace) {
 							torn = true
 						} else {
 							kind := "bytes that were not stored under that id"
@@ -1244,7 +1252,7 @@ func runPSConc(env *ev.Env, c Case) (o ev.Outcome) {
 				return
 			}
 			if rerr != nil || !bytes.Equal(b, content[id]) {
-				if c.Persistor == "fs" && rerr == nil && bytes.HasPrefix(content[id], b) && env.Known(mInPlace) {
+				if c.Persistor == "fs" && rerr == nil && len(b) <= len(content[id]) && positionwiseMixZ(b, [][]byte{content[id]}, true) && env.Known(mInPlace) {
 					o.KnownHits = append(o.KnownHits, "KF-C19-3")
 					continue
 				}
@@ -1506,23 +1514,23 @@ func genGCSeq(t *rapid.T, env *ev.Env) Case {
 	}
 	allowOversize := rapid.IntRange(0, 3).Draw(t, "allowOversize") == 0
 	genConfig(t, &c, allowOversize, maxLen)
-	nkeys := rapid.IntRange(2, 5).Draw(t, "nkeys")
+	nkeys := rapid.IntRange(1, 4).Draw(t, "nkeys")
 	opGen := rapid.Custom(func(t *rapid.T) Op {
 		k := rapid.IntRange(0, nkeys-1).Draw(t, "k")
-		switch rapid.IntRange(0, 19).Draw(t, "op") {
-		case 0, 1, 2, 3, 4, 5, 6:
+		switch rapid.SampledFrom([]string{"open", "set", "read", "get", "set", "get", "read", "close", "set", "open", "get", "remove"}).Draw(t, "op") {
+		case "set":
 			op := Op{Op: "set", K: k, Len: genLen(t, maxLen), Mode: rapid.SampledFrom([]string{"exact", "unknown", "exact", "unknown", "fail"}).Draw(t, "mode")}
 			if op.Mode == "fail" {
 				op.FailAt = rapid.IntRange(0, maxLen).Draw(t, "failAt")
 			}
 			return op
-		case 7, 8, 9, 10, 11:
+		case "get":
 			return Op{Op: "get", K: k}
-		case 12, 13:
+		case "remove":
 			return Op{Op: "remove", K: k}
-		case 14, 15:
+		case "open":
 			return Op{Op: "open", K: k}
-		case 16, 17, 18:
+		case "read":
 			return Op{Op: "read", H: rapid.IntRange(0, 5).Draw(t, "h"), N: rapid.SampledFrom([]int{10, 1, 100, 1000, 70}).Draw(t, "n")}
 		default:
 			return Op{Op: "close", H: rapid.IntRange(0, 5).Draw(t, "h")}
@@ -1652,15 +1660,28 @@ func genPSConc(t *rapid.T, env *ev.Env) Case {
 // genCase mixes the kinds: sequential GenericCache programs are cheap, the other
 // kinds cost a process each.
 func genCase(t *rapid.T, env *ev.Env) Case {
-	switch k := rapid.IntRange(0, 19).Draw(t, "kind"); {
-	case k < 14:
-		return genGCSeq(t, env)
-	case k < 16:
+	// rapid biases small integers and early SampledFrom elements; hash a wide draw
+	// to get the stated proportions (0, where shrinking ends, maps to gc-seq)
+	x := rapid.Uint64().Draw(t, "kindBits")
+	kind := "gc-seq"
+	switch h := (x * 0x9e3779b97f4a7c15) >> 32 % 100; {
+	case x == 0:
+	case h < 4:
+		kind = "gc-conc"
+	case h < 8:
+		kind = "ps-seq"
+	case h < 12:
+		kind = "ps-conc"
+	}
+	switch kind {
+	case "gc-conc":
 		return genGCConc(t, env)
-	case k < 18:
+	case "ps-seq":
 		return genPSSeq(t, env)
-	default:
+	case "ps-conc":
 		return genPSConc(t, env)
+	default:
+		return genGCSeq(t, env)
 	}
 }
 
@@ -1668,7 +1689,7 @@ func TestC19(t *testing.T) {
 	ev.Main(t, ev.Spec[Case]{
 		ID:    "C19",
 		Level: "exploration",
-		Rule: "four case kinds drawn 70/10/10/10: gc-seq = model-based programs (3-40 ops: Set exact/unknown size/failing reader, Get, Remove, reader handles held across later ops) on GenericCache x {in-memory, filesystem persistor} x {LFU+key limit 1-3, LFU+size limit, evict-nothing}, a quarter with values larger than the size limit; " +
+		Rule: "four case kinds drawn about 88/4/4/4 (the last three cost a child process each): gc-seq = model-based programs (3-40 ops: Set exact/unknown size/failing reader, Get, Remove, reader handles held across later ops) on GenericCache x {in-memory, filesystem persistor} x {LFU+key limit 1-3, LFU+size limit, evict-nothing}, a quarter with values larger than the size limit; " +
 			"gc-conc = 2-5 goroutines x 4-25 Get/Set/Remove on 1-3 keys with self-describing values, race detector on; ps-seq = schedules of put/delete (commit or rollback), open/read/close/abandon of GetPart readers on the cache part store over fs or sql; ps-conc = 2-5 goroutines of GetPart/abandoned GetPart/PutPart/DeletePart. " +
 			"non-trivial: gc-seq = >=1 hit, >=1 miss and >=1 re-Set of an existing key; conc kinds = >=2 ops on one key/id overlapped in time and one of them was a Set/Remove/Put/Delete; ps-seq = a put/delete committed, or a second reader was opened, while a reader of the same id was open; distinct = distinct case JSON",
 		Assumptions: []string{
